@@ -173,8 +173,8 @@ def main(tier):
         for fn in os.listdir(tlc.SPEC_DIR):
             if fn.endswith('.tla') and not fn.startswith(('MC_', 'Trace_')):
                 shutil.copy(os.path.join(tlc.SPEC_DIR, fn), tmpd)
-        # pool entries inside the grammar of ParseSel.tla / Ir.tla (no :lang / :dir / contains / HTML state pseudo-classes, no at-rules)
-        ir_pool = [k + 1 for k, a in enumerate(POOL) if not re.search(r'lang\}|dir\}|contains|checked', a)]
+        # pool entries inside the grammar of ParseSel.tla / Ir.tla (no HTML state pseudo-classes)
+        ir_pool = [k + 1 for k, a in enumerate(POOL) if not re.search(r'checked', a)]
         with open(os.path.join(tmpd, 'MC_C09_gen.tla'), 'w') as f:
             f.write('---- MODULE MC_C09_gen ----\n\\* generated from the annotated pool of checks/c09.py\nEXTENDS Spelling, Lexer, Json\n'
                     '\\* T-Spelling: a respelling lexes (Lexer.tla) to the same token kinds and combinators as the canonical spelling\n'
